@@ -519,6 +519,343 @@ theorem close_code_reason_recorded (fs : Nat) (pol : Policy) (s : St) (fc : Bool
   rw [hstep]
   exact ⟨h3, h4⟩
 
+/-! ### the wire: frames, fragmentation, whole interleaved histories (round 3) -/
+
+open MitmVerif.C28.Wire in
+/-- **C28 (wire, frame).** Every frame an endpoint may serialise (FIN, RSV bits the extensions
+    accept, opcode, 7/16/64-bit length, optional masking) is read back by the other endpoint's
+    decoder exactly — header fields, key and unmasked payload — leaving the rest of the stream. -/
+theorem frame_roundtrip (client : Bool) (rsvOk : Nat → Nat → Bool) (f : Wire.Frame) (rest : Bytes)
+    (hwf : f.wf client) (hok : rsvOk f.opcode f.rsv = true) :
+    Wire.decodeFrame client rsvOk (Wire.encodeFrame f ++ rest) = .ok f rest :=
+  Wire.frame_roundtrip' client rsvOk f rest hwf hok
+
+/-- **C28 (wire, stream).** A stream of serialised frames decodes to exactly these frames, nothing
+    left over, no error. -/
+theorem stream_roundtrip (client : Bool) (rsvOk : Nat → Nat → Bool) (frames : List Wire.Frame)
+    (h : Wire.FramesOk client rsvOk frames) (fuel : Nat) (hf : frames.length < fuel) :
+    Wire.decodeStream client rsvOk fuel (frames.flatMap Wire.encodeFrame) = (frames, [], false) :=
+  Wire.stream_roundtrip' client rsvOk frames h fuel hf
+
+/-- **C28 (wire, message).** The frames of one message — any fragmentation, any masking keys, any
+    length encoding — arrive as exactly the fragment events and reassemble to exactly one message
+    of the same type whose content is the concatenation of the fragments. -/
+theorem message_wire_roundtrip (client : Bool) (t : Bool) (keys : Nat → Option Bytes) (fr : List (Bytes × Bool))
+    (hwf : wellFramed fr = true) (hk : Wire.KeysOk client keys)
+    (hsz : ∀ pf ∈ fr, pf.1.length < 9223372036854775808) (fuel : Nat) (hfuel : fr.length < fuel) :
+    Wire.streamEvents client Wire.noExt fuel none ((Wire.dataFrames t keys 0 true fr).flatMap Wire.encodeFrame)
+      = some (fr.map (fun pf => WsEv.msg t pf.1 true pf.2)) ∧
+    Wire.reassemble none (fr.map (fun pf => WsEv.msg t pf.1 true pf.2)) = [(t, (fr.map (·.1)).flatten)] :=
+  Wire.message_wire_roundtrip client t keys fr hwf hk hsz fuel hfuel
+
+private theorem appendLast_snoc (pre : List Bytes) (x d : Bytes) : appendLast (pre ++ [x]) d = pre ++ [x ++ d] := by
+  induction pre with
+  | nil => simp [appendLast]
+  | cons y rest ih =>
+    cases h : rest ++ [x] with
+    | nil => simp at h
+    | cons z zs =>
+      simp only [List.cons_append, h, appendLast]
+      rw [← h, ih]
+
+private theorem setBuf_setBuf (s : St) (fc : Bool) (b b' : List Bytes) : (s.setBuf fc b).setBuf fc b' = s.setBuf fc b' := by
+  cases fc <;> rfl
+
+private theorem finishMsg_setBuf (fs : Nat) (pol : Policy) (fc inj : Bool) (s : St) (t : Bool) (b buf : List Bytes) :
+    finishMsg fs pol fc inj (s.setBuf fc b) t buf = finishMsg fs pol fc inj s t buf := by
+  unfold finishMsg
+  simp only [setBuf_msgs, setBuf_ws, setBuf_setBuf]
+
+/-- the events of one fragmented message, processed one after the other, amount to finishing the
+    message with the fragments appended to `frame_buf` -/
+private theorem chunks_run (fs : Nat) (pol : Policy) (fc inj t : Bool) (fr : List (Bytes × Bool)) :
+    wellFramed fr = true → ∀ (s : St) (pre : List Bytes), s.crashed = false → s.buf fc = pre ++ [[]] →
+    procEvs fs pol fc inj s (fr.map (fun pf => WsEv.msg t pf.1 true pf.2)) =
+      finishMsg fs pol fc inj s t (pre ++ fr.map (·.1)) := by
+  induction fr with
+  | nil => intro h; simp [wellFramed] at h
+  | cons pf rest ih =>
+    obtain ⟨p, fin⟩ := pf
+    cases rest with
+    | nil =>
+      intro h s pre hc hb
+      simp only [wellFramed] at h; subst h
+      simp only [List.map_cons, List.map_nil, procEvs, procEv, hc, Bool.false_eq_true, if_false, procMsg, if_true,
+        hb, appendLast_snoc, List.nil_append, List.append_nil]
+    | cons q rest' =>
+      intro h s pre hc hb
+      simp only [wellFramed, Bool.and_eq_true, Bool.not_eq_true'] at h
+      obtain ⟨hfin, hwf⟩ := h
+      subst hfin
+      have hstep : procEv fs pol fc inj s (WsEv.msg t p true false)
+          = (s.setBuf fc ((pre ++ [p]) ++ [[]]), []) := by
+        simp [procEv, hc, procMsg, hb, appendLast_snoc]
+      have := ih hwf (s.setBuf fc ((pre ++ [p]) ++ [[]])) (pre ++ [p]) (by simpa using hc) (setBuf_buf _ _ _)
+      have hm : ((p, false) :: q :: rest').map (fun pf => WsEv.msg t pf.1 true pf.2)
+          = WsEv.msg t p true false :: (q :: rest').map (fun pf => WsEv.msg t pf.1 true pf.2) := rfl
+      rw [hm, procEvs, hstep]
+      simp only [List.nil_append]
+      rw [this, finishMsg_setBuf]
+      simp [List.append_assoc]
+
+/-- **C28 (fragmentation-insensitive, end to end over the wire).**  A peer sends one message of
+    type `t` in ANY fragmentation `fr` (frames with any masking keys and 7/16/64-bit lengths).
+    Then (1) the proxy's decoder yields exactly the fragment events; (2) the relay records exactly
+    one message whose content is the concatenation of the fragments as edited by the addons and,
+    unless it is dropped, hands one burst to the other side; (3) that burst, serialised by the
+    proxy with any keys and decoded + reassembled by the receiving peer (which has the same role
+    towards the proxy as the proxy has towards the sender: `!fc`), is exactly one message of
+    type `t` with the recorded content (`wire m`: the content itself for binary and for UTF-8 text). -/
+theorem wire_message_end_to_end (fs : Nat) (pol : Policy) (s : St) (fc t : Bool)
+    (fr : List (Bytes × Bool)) (keys keys' : Nat → Option Bytes) (fuel fuel' : Nat)
+    (hwf : wellFramed fr = true) (hk : Wire.KeysOk (!fc) keys)
+    (hsz : ∀ pf ∈ fr, pf.1.length < 9223372036854775808) (hfuel : fr.length < fuel)
+    (hnd : s.done = false) (hc : s.crashed = false) (hop : s.ws (!fc) = .wopen) (hb : s.buf fc = [[]])
+    (m : Msg)
+    (hm : m = applyAction (Msg.mk t fc (fr.map (·.1)).flatten false false)
+                (pol s.msgs.length (Msg.mk t fc (fr.map (·.1)).flatten false false)))
+    (hkeep : m.dropped = false)
+    (hk' : Wire.KeysOk (!fc) keys')
+    (hsz' : ∀ pf ∈ fragmentize fs (fr.map (·.1.length)) t m.content, pf.1.length < 9223372036854775808)
+    (hfuel' : (fragmentize fs (fr.map (·.1.length)) t m.content).length < fuel') :
+    let evs := fr.map (fun pf => WsEv.msg t pf.1 true pf.2)
+    let burst := fragmentize fs (fr.map (·.1.length)) t m.content
+    Wire.streamEvents (!fc) Wire.noExt fuel none ((Wire.dataFrames t keys 0 true fr).flatMap Wire.encodeFrame) = some evs ∧
+    (step fs pol s (.data fc evs)).1.msgs = s.msgs ++ [m] ∧
+    (step fs pol s (.data fc evs)).2 = [.hookMsg s.msgs.length, .sendMsg (!fc) t burst] ∧
+    (Wire.streamEvents (!fc) Wire.noExt fuel' none ((Wire.dataFrames t keys' 0 true burst).flatMap Wire.encodeFrame)).map
+        (Wire.reassemble none) = some [(t, wire m)] := by
+  intro evs burst
+  have hin := Wire.message_wire_roundtrip (!fc) t keys fr hwf hk hsz fuel hfuel
+  have hrun := chunks_run fs pol fc false t fr hwf s [] hc (by simpa using hb)
+  have hmt : m.text = t := by rw [hm, applyAction_text]
+  have hstep : step fs pol s (.data fc evs) = finishMsg fs pol fc false s t (fr.map (·.1)) := by
+    simp only [step, hnd, hc, Bool.or_self, Bool.false_eq_true, if_false]
+    simpa using hrun
+  have hbw := fragmentize_wellFramed fs (fr.map (·.1.length)) t m.content
+  have hout := Wire.message_wire_roundtrip (!fc) t keys' burst hbw hk' hsz' fuel' hfuel'
+  refine ⟨hin.1, ?_, ?_, ?_⟩
+  · rw [hstep]; unfold finishMsg
+    simp only [← hm, hkeep, Bool.false_eq_true, if_false, hop, if_true]
+  · rw [hstep]; unfold finishMsg
+    simp only [← hm, hkeep, Bool.false_eq_true, if_false, hop, if_true, List.map_map]
+    rfl
+  · rw [hout.1]
+    simp only [Option.map_some]
+    rw [hout.2]
+    have := fragmentize_wire fs (fr.map (·.1.length)) t m.content
+    simp only [burst, this, wire, hmt]
+
+/-! ### whole interleaved histories: segmentation, ping/pong, close -/
+
+private theorem appendLast_appendLast (b : List Bytes) (d1 d2 : Bytes) :
+    appendLast (appendLast b d1) d2 = appendLast b (d1 ++ d2) := by
+  induction b with
+  | nil => simp [appendLast]
+  | cons x rest ih =>
+    cases rest with
+    | nil => simp [appendLast]
+    | cons y rest' =>
+      simp only [appendLast] at ih ⊢
+      cases h : appendLast (y :: rest') d1 with
+      | nil => exact absurd h (appendLast_ne_nil _ _)
+      | cons z zs => rw [h] at ih; simp only [appendLast, ih]
+
+/-- **C28 (segmentation).** A frame that wsproto hands over in two pieces (because it arrived in
+    two TCP segments) has the same effect — state and output — as the frame in one piece. -/
+theorem partial_frame_events_insensitive (fs : Nat) (pol : Policy) (fc inj : Bool) (s : St)
+    (t : Bool) (d1 d2 : Bytes) (ff mf : Bool) (hc : s.crashed = false) :
+    procEvs fs pol fc inj s [.msg t d1 false false, .msg t d2 ff mf] =
+    procEvs fs pol fc inj s [.msg t (d1 ++ d2) ff mf] := by
+  simp only [procEvs, procEv, hc, Bool.false_eq_true, if_false, procMsg, setBuf_crashed, setBuf_buf,
+    appendLast_appendLast, List.nil_append, List.append_nil]
+  cases mf
+  · cases ff <;> simp [setBuf_setBuf]
+  · simp [finishMsg_setBuf]
+
+private def Live (s : St) : Prop := s.wsC = .wopen ∧ s.wsS = .wopen ∧ s.done = false ∧ s.crashed = false
+
+private theorem live_ws (s : St) (h : Live s) (c : Bool) : s.ws c = .wopen := by
+  cases c <;> simp [St.ws, h.1, h.2.1]
+
+private theorem live_setBuf (s : St) (h : Live s) (fc : Bool) (b : List Bytes) : Live (s.setBuf fc b) := by
+  cases fc <;> exact h
+
+private theorem controlsOut_append (tc : Bool) (a b : List Out) :
+    controlsOut tc (a ++ b) = controlsOut tc a ++ controlsOut tc b := by
+  induction a with
+  | nil => rfl
+  | cons o a ih =>
+    cases o <;> simp only [List.cons_append, controlsOut, ih]
+    all_goals (split <;> simp)
+
+private theorem finishMsg_live (fs : Nat) (pol : Policy) (fc inj : Bool) (s : St) (t : Bool) (buf : List Bytes)
+    (h : Live s) :
+    Live (finishMsg fs pol fc inj s t buf).1 ∧ ∀ tc, controlsOut tc (finishMsg fs pol fc inj s t buf).2 = [] := by
+  unfold finishMsg
+  simp only [live_ws s h, if_true]
+  split
+  · exact ⟨by cases fc <;> exact h, fun tc => by simp [controlsOut]⟩
+  · exact ⟨by cases fc <;> exact h, fun tc => by simp [controlsOut]⟩
+
+private theorem procEv_live (fs : Nat) (pol : Policy) (fc inj : Bool) (s : St) (e : WsEv)
+    (h : Live s) (hn : e.isClose = false) :
+    Live (procEv fs pol fc inj s e).1 ∧
+    ∀ tc, controlsOut tc (procEv fs pol fc inj s e).2 = if (!fc) = tc then wsControls [e] else [] := by
+  unfold procEv
+  simp only [h.2.2.2, Bool.false_eq_true, if_false]
+  cases e with
+  | msg t d ff mf =>
+    simp only [procMsg, wsControls]
+    cases mf
+    · cases ff
+      · exact ⟨live_setBuf _ h _ _, fun tc => by simp [controlsOut]⟩
+      · exact ⟨live_setBuf _ h _ _, fun tc => by simp [controlsOut]⟩
+    · have := finishMsg_live fs pol fc inj s t (appendLast (s.buf fc) d) h
+      exact ⟨by simpa using this.1, fun tc => by simpa using this.2 tc⟩
+  | ping p =>
+    simp only [procCtl, live_ws s h, if_true, wsControls]
+    exact ⟨h, fun tc => by simp only [controlsOut]⟩
+  | pong p =>
+    simp only [procCtl, live_ws s h, if_true, wsControls]
+    exact ⟨h, fun tc => by simp only [controlsOut]⟩
+  | close k c r => simp [WsEv.isClose] at hn
+
+private theorem wsControls_cons (e : WsEv) (es : List WsEv) : wsControls (e :: es) = wsControls [e] ++ wsControls es := by
+  cases e <;> simp [wsControls]
+
+private theorem procEvs_live (fs : Nat) (pol : Policy) (fc inj : Bool) (es : List WsEv) :
+    ∀ s : St, Live s → (∀ e ∈ es, e.isClose = false) →
+    Live (procEvs fs pol fc inj s es).1 ∧
+    ∀ tc, controlsOut tc (procEvs fs pol fc inj s es).2 = if (!fc) = tc then wsControls es else [] := by
+  induction es with
+  | nil => intro s h _; exact ⟨h, fun tc => by simp [procEvs, controlsOut, wsControls]⟩
+  | cons e es ih =>
+    intro s h hn
+    obtain ⟨l1, c1⟩ := procEv_live fs pol fc inj s e h (hn e (by simp))
+    obtain ⟨l2, c2⟩ := ih _ l1 (fun x hx => hn x (List.mem_cons_of_mem _ hx))
+    refine ⟨l2, fun tc => ?_⟩
+    simp only [procEvs, controlsOut_append, c1 tc, c2 tc]
+    rw [wsControls_cons e es]
+    split <;> simp
+
+private theorem injectEvents_noClose (fs : Nat) (t : Bool) (c : Bytes) :
+    (∀ e ∈ injectEvents fs t c, e.isClose = false) ∧ wsControls (injectEvents fs t c) = [] := by
+  unfold injectEvents
+  generalize fragmentize fs [] t c = l
+  induction l with
+  | nil => simp [wsControls]
+  | cons a l ih =>
+    refine ⟨?_, ?_⟩
+    · intro e he
+      simp only [List.map_cons, List.mem_cons] at he
+      rcases he with rfl | he
+      · rfl
+      · exact ih.1 e he
+    · simp only [List.map_cons, wsControls]; exact ih.2
+
+private theorem step_live (fs : Nat) (pol : Policy) (s : St) (e : Ev) (h : Live s) (hn : e.noClose = true) :
+    Live (step fs pol s e).1 ∧ ∀ tc, controlsOut tc (step fs pol s e).2 = controlsIn (!tc) [e] := by
+  cases e with
+  | data fc evs =>
+    simp only [step, h.2.2.1, h.2.2.2, Bool.or_self, Bool.false_eq_true, if_false]
+    have hn' : ∀ e ∈ evs, e.isClose = false := by
+      intro e he; simp only [Ev.noClose, List.all_eq_true] at hn; simpa using hn e he
+    obtain ⟨l, c⟩ := procEvs_live fs pol fc false evs s h hn'
+    refine ⟨l, fun tc => ?_⟩
+    rw [c tc]; cases fc <;> cases tc <;> simp [controlsIn]
+  | inject fc t content =>
+    simp only [step, h.2.2.1, h.2.2.2, Bool.or_self, Bool.false_eq_true, if_false]
+    obtain ⟨hnc, hw⟩ := injectEvents_noClose fs t content
+    obtain ⟨l, c⟩ := procEvs_live fs pol fc true (injectEvents fs t content) _ (live_setBuf s h fc [[]]) hnc
+    refine ⟨live_setBuf _ l _ _, fun tc => ?_⟩
+    rw [c tc, hw]; simp [controlsIn]
+
+private theorem controlsIn_cons (fc : Bool) (e : Ev) (es : List Ev) :
+    controlsIn fc (e :: es) = controlsIn fc [e] ++ controlsIn fc es := by
+  cases e <;> simp only [controlsIn] <;> (try split) <;> simp
+
+private theorem run_live (fs : Nat) (pol : Policy) (es : List Ev) :
+    ∀ s : St, Live s → (∀ e ∈ es, e.noClose = true) →
+    Live (run fs pol s es).1 ∧ ∀ tc, controlsOut tc (run fs pol s es).2 = controlsIn (!tc) es := by
+  induction es with
+  | nil => intro s h _; exact ⟨h, fun tc => by simp [run, controlsOut, controlsIn]⟩
+  | cons e es ih =>
+    intro s h hn
+    obtain ⟨l1, c1⟩ := step_live fs pol s e h (hn e (by simp))
+    obtain ⟨l2, c2⟩ := ih _ l1 (fun x hx => hn x (List.mem_cons_of_mem _ hx))
+    refine ⟨l2, fun tc => ?_⟩
+    simp only [run, controlsOut_append, c1 tc, c2 tc]
+    rw [controlsIn_cons (!tc) e es]
+
+/-- **C28 (ping/pong over whole histories).** In every history of both directions — data in any
+    fragmentation, injections, addon edits and drops interleaved — as long as nobody has closed,
+    each peer is handed exactly the pings and pongs the other peer sent, with their payloads, in
+    order. -/
+theorem controls_relayed_in_order (fs : Nat) (pol : Policy) (evs : List Ev) (toClient : Bool)
+    (hn : ∀ e ∈ evs, e.noClose = true) :
+    controlsOut toClient (run fs pol {} evs).2 = controlsIn (!toClient) evs :=
+  (run_live fs pol evs {} ⟨rfl, rfl, rfl, rfl⟩ hn).2 toClient
+
+private theorem run_append (fs : Nat) (pol : Policy) (a b : List Ev) :
+    ∀ s : St, (run fs pol s (a ++ b)).1 = (run fs pol (run fs pol s a).1 b).1 := by
+  induction a with
+  | nil => intro s; rfl
+  | cons e a ih => intro s; simp only [List.cons_append, run]; exact ih _
+
+/-- **C28 (close over whole histories).** Whatever happened before in both directions, the first
+    close event of the history (a peer's close frame with its code and reason, EOF, or a protocol
+    failure) determines `closed_by_client`, `close_code` and `close_reason` of the flow, and
+    nothing after it changes them. -/
+theorem close_recorded_in_history (fs : Nat) (pol : Policy) (before : List Ev) (fc : Bool) (pre : List WsEv)
+    (kind : CloseKind) (code : Nat) (reason : Option Bytes) (rest : List Ev)
+    (h1 : ∀ e ∈ before, e.noClose = true) (h2 : ∀ e ∈ pre, e.isClose = false) :
+    (run fs pol {} (before ++ .data fc (pre ++ [.close kind code reason]) :: rest)).1.closed
+      = some (fc, code, reason) := by
+  rw [run_append]
+  obtain ⟨l, _⟩ := run_live fs pol before {} ⟨rfl, rfl, rfl, rfl⟩ h1
+  obtain ⟨l2, _⟩ := procEvs_live fs pol fc false pre _ l h2
+  exact (close_code_reason_recorded fs pol _ fc pre kind code reason rest l.2.2.1 l2.2.2.2).1
+
+private theorem flagged_of_wellFramed (fr : List (Bytes × Bool)) (h : wellFramed fr = true) :
+    flagged (fr.map (·.1)) = fr := by
+  induction fr with
+  | nil => simp [wellFramed] at h
+  | cons pf rest ih =>
+    obtain ⟨p, fin⟩ := pf
+    cases rest with
+    | nil => simp only [wellFramed] at h; subst h; rfl
+    | cons q rest' =>
+      simp only [wellFramed, Bool.and_eq_true, Bool.not_eq_true'] at h
+      obtain ⟨hfin, hwf⟩ := h
+      subst hfin
+      have := ih hwf
+      simp only [List.map_cons] at this ⊢
+      simp only [flagged, this]
+
+/-- **C28 (boundaries, whole message).** A message that arrives as the frames `fr` (any number,
+    any sizes; text frames as the `str` pieces wsproto hands over) and is left untouched by the
+    addons is sent on as exactly these frames: same payload per frame, same FIN flags. -/
+theorem unmodified_message_keeps_frames (fs : Nat) (pol : Policy) (s : St) (fc inj t : Bool)
+    (fr : List (Bytes × Bool)) (hwf : wellFramed fr = true)
+    (hc : s.crashed = false) (hb : s.buf fc = [[]]) (hop : s.ws (!fc) = .wopen)
+    (hkeep : pol s.msgs.length (Msg.mk t fc (fr.map (·.1)).flatten inj false) = .keep)
+    (hv : t = true → ∀ pf ∈ fr, san pf.1 = pf.1) :
+    (procEvs fs pol fc inj s (fr.map (fun pf => WsEv.msg t pf.1 true pf.2))).2 =
+      [.hookMsg s.msgs.length, .sendMsg (!fc) t fr] := by
+  rw [chunks_run fs pol fc inj t fr hwf s [] hc (by simpa using hb)]
+  unfold finishMsg
+  simp only [List.nil_append, hkeep, applyAction, Bool.false_eq_true, if_false, hop, if_true]
+  have hne : fr.map (·.1) ≠ [] := by
+    cases fr with
+    | nil => simp [wellFramed] at hwf
+    | cons a l => simp
+  have hv' : t = true → ∀ f ∈ fr.map (·.1), san f = f := by
+    intro ht f hf
+    obtain ⟨pf, hpf, rfl⟩ := List.mem_map.mp hf
+    exact hv ht pf hpf
+  rw [fragmentize_unmodified fs t _ hne hv', flagged_of_wellFramed fr hwf]
+
 /-! ### non-vacuity: concrete runs computed by the kernel -/
 
 -- "a" ++ "é"×3 as text with FRAGMENT_SIZE 4: the cut at byte 4 would split the second "é";
@@ -542,5 +879,25 @@ example : delivered false (run 4000 (fun _ _ => .keep) {}
 example : delivered true (run 4000 (fun i _ => if i = 0 then .drop else .edit [0x7A]) {}
       [.data false [.msg false [1] true true, .msg false [2] true true]]).2 = [(false, [0x7A])] := by
   decide +kernel
+
+-- wire: a masked 3-byte text frame and an unmasked 126-byte (16-bit length) binary frame round-trip
+example : Wire.decodeFrame false Wire.noExt (Wire.encodeFrame ⟨true, 0, 1, some [1, 2, 3, 4], [0x61, 0x62, 0x63]⟩ ++ [0xFF])
+    = .ok ⟨true, 0, 1, some [1, 2, 3, 4], [0x61, 0x62, 0x63]⟩ [0xFF] := by decide +kernel
+example : Wire.encodeFrame ⟨true, 0, 1, some [1, 2, 3, 4], [0x61, 0x62, 0x63]⟩ = [0x81, 0x83, 1, 2, 3, 4, 0x60, 0x60, 0x60] := by
+  decide +kernel
+example : (Wire.encodeFrame ⟨false, 0, 2, none, List.replicate 126 0⟩).take 4 = [0x02, 126, 0, 126] := by decide +kernel
+-- the decoder does reject: reserved bit, unmasked frame to a server, non-minimal length, fragmented ping
+example : (match Wire.decodeFrame true Wire.noExt [0xC1, 0x00] with | .fail => true | _ => false) = true := by decide +kernel
+example : (match Wire.decodeFrame false Wire.noExt [0x81, 0x00] with | .fail => true | _ => false) = true := by decide +kernel
+example : (match Wire.decodeFrame true Wire.noExt [0x81, 126, 0, 5, 1, 2, 3, 4, 5] with | .fail => true | _ => false) = true := by
+  decide +kernel
+example : (match Wire.decodeFrame true Wire.noExt [0x09, 0x00] with | .fail => true | _ => false) = true := by decide +kernel
+-- a text message in three frames with a ping in between is reassembled to one message
+example : (Wire.streamEvents true Wire.noExt 10 none [0x01, 1, 0x61, 0x89, 0, 0x00, 1, 0x62, 0x80, 1, 0x63]).map (Wire.reassemble none)
+    = some [(true, [0x61, 0x62, 0x63])] := by decide +kernel
+-- pings of both directions in one history
+example : controlsOut false (run 4000 (fun _ _ => .keep) {}
+      [.data true [.ping [1], .msg true [0x61] true true], .data false [.pong [2]], .data true [.pong [3]]]).2
+    = [(true, [1]), (false, [3])] := by decide +kernel
 
 end MitmVerif.Props.C28
